@@ -37,7 +37,9 @@ type CachedLoader struct {
 }
 
 func (l *CachedLoader) Load(uri, parentURI string) (*Schema, error) {
-	if schema, ok := l.cache[uri]; ok {
+	key := cacheKey(uri, parentURI)
+
+	if schema, ok := l.cache[key]; ok {
 		return schema, nil
 	}
 
@@ -46,21 +48,41 @@ func (l *CachedLoader) Load(uri, parentURI string) (*Schema, error) {
 		return nil, errors.Join(ErrCannotLoadSchema, err)
 	}
 
-	l.cache[uri] = schema
+	l.cache[key] = schema
 
 	return schema, nil
+}
+
+// cacheKey identifies what a reference denotes: a relative file reference is
+// resolved against its parent, so that the same spelling used from two
+// directories does not share an entry.
+func cacheKey(uri, parentURI string) string {
+	if refType, err := GetRefType(uri); err != nil || refType != RefTypeFile {
+		return uri
+	}
+
+	fileName := strings.TrimPrefix(uri, "file://")
+	if !filepath.IsAbs(fileName) {
+		fileName = filepath.Join(filepath.Dir(parentURI), fileName)
+	}
+
+	return filepath.Clean(fileName)
 }
 
 func NewFileLoader(resolveExtensions, yamlExtensions []string) *FileLoader {
 	return &FileLoader{
 		resolveExtensions: resolveExtensions,
 		yamlExtensions:    toExtensionSet(yamlExtensions),
+		parsed:            map[string]*Schema{},
 	}
 }
 
 type FileLoader struct {
 	resolveExtensions []string
 	yamlExtensions    map[string]bool
+	// parsed holds every file parsed so far by its absolute, symlink-free name, so
+	// that a file reached under several spellings is one schema.
+	parsed map[string]*Schema
 }
 
 func (l *FileLoader) Load(fileName, parentFileName string) (*Schema, error) {
@@ -69,9 +91,22 @@ func (l *FileLoader) Load(fileName, parentFileName string) (*Schema, error) {
 		return nil, err
 	}
 
+	canonical, err := filepath.Abs(qualified)
+	if err != nil {
+		canonical = qualified
+	}
+
+	if schema, ok := l.parsed[canonical]; ok {
+		return schema, nil
+	}
+
 	schema, err := l.parseFile(qualified)
 	if err != nil {
 		return nil, err
+	}
+
+	if l.parsed != nil {
+		l.parsed[canonical] = schema
 	}
 
 	return schema, nil
